@@ -198,3 +198,10 @@ package report
 //@   requires valid: forall i int :: 0 <= i && i < len(rpt.prof.Sample) ==> rpt.prof.Sample[i] != nil && forall j int :: 0 <= j && j < len(rpt.prof.Sample[i].Location) ==> rpt.prof.Sample[i].Location[j] != nil
 //@   ensures total: result.Total == rpt.total && result.Type == rpt.options.SampleType
 //@   ensures nonnil: result.Stacks != nil && result.Sources != nil && len(result.Stacks) == len(rpt.prof.Sample)
+
+// ---- C18: callgrind positions. Relative addresses are computed against the node printed just before: at the end of
+// every iteration the base is the node of that iteration, and every address is taken relative to the current base ----
+//@ func printCallgrind nosafety funcvalues=pure
+//@   callsite callgrindAddress base: $arg0 == iter(prevInfo)
+//@   loop 1
+//@     step base_is_node: prevInfo == addr(n.Info)
